@@ -135,6 +135,19 @@ Proof.
   - unfold ck_close_cb. np_cases.
 Qed.
 
+Lemma check_proc_fixed_safe : proc_safe check_proc_fixed.
+Proof.
+  unfold proc_safe, check_proc_fixed. cbn [pr_day_start pr_price pr_open pr_txn pr_posting pr_balance pr_close pr_day_end].
+  repeat split; some_inv.
+  - unfold ck_open_cb. np_cases.
+  - unfold ck_posting_cb. np_cases.
+  - unfold ck_balance_fixed, ck_balance_cb. np_cases.
+  - unfold ck_close_cb. np_cases.
+Qed.
+
+Lemma check_proc_current_safe b : proc_safe (check_proc_current b).
+Proof. unfold check_proc_current. destruct b; [apply check_proc_fixed_safe|apply check_proc_safe]. Qed.
+
 Lemma val_adjustments_np v date prev cur pos : np (val_adjustments v date prev cur pos).
 Proof.
   induction pos as [|[k [[a c] q]] rest IH]; cbn [val_adjustments]; [apply np_ok|].
@@ -262,20 +275,22 @@ Proof. unfold expand_posting_safe, depanic. destruct (expand_posting t ac p); re
 
 Lemma expand_postings_safe_eq t ac ps : expand_postings_safe t ac ps = depanic (expand_postings t ac ps).
 Proof.
-  induction ps as [|p ps IH]; cbn [expand_postings_safe expand_postings]; [reflexivity|].
+  unfold expand_postings.
+  induction ps as [|p ps IH]; cbn [expand_postings_safe expand_postings_gen]; [reflexivity|].
+  change (expand_posting_gen rebook_fixed t ac p) with (expand_posting t ac p).
   rewrite depanic_mbind, expand_posting_safe_eq.
   apply mbind_ext. intros l1. rewrite depanic_mbind, IH. apply mbind_ext. intros l2. reflexivity.
 Qed.
 
 Lemma expand_safe_eq t ac : expand_safe t ac = depanic (expand t ac).
 Proof.
-  unfold expand_safe, expand. rewrite depanic_mbind, (depanic_id _ (check_account_mnp _)).
+  unfold expand_safe, expand, expand_gen. rewrite depanic_mbind, (depanic_id _ (check_account_mnp _)).
   apply mbind_ext. intros _. apply expand_postings_safe_eq.
 Qed.
 
 Lemma txn_create_safe_eq s : txn_create_safe s = depanic (txn_create s).
 Proof.
-  unfold txn_create_safe, txn_create. rewrite depanic_mbind, (depanic_id _ (postings_create_mnp _)).
+  unfold txn_create_safe, txn_create, txn_create_gen. rewrite depanic_mbind, (depanic_id _ (postings_create_mnp _)).
   apply mbind_ext. intros ps. destruct (st_accrual s); [apply expand_safe_eq|reflexivity].
 Qed.
 
@@ -346,7 +361,7 @@ Qed.
 Theorem expand_posting_panics_iff t ac p :
   (exists m, expand_posting t ac p = MPanic m) <-> (is_IE (p_acc p) = true /\ accrual_window_ok ac = false).
 Proof.
-  unfold expand_posting. destruct (is_IE (p_acc p)) eqn:EIE.
+  unfold expand_posting, expand_posting_gen. destruct (is_IE (p_acc p)) eqn:EIE.
   2: { split; [intros [m H]; discriminate|intros [H _]; discriminate]. }
   rewrite accrual_window_ok_false.
   destruct (Z.eq_dec (ac_start ac) 0) as [Hz|Hnz].
@@ -374,7 +389,9 @@ Qed.
 Lemma expand_postings_np t ac ps :
   (forall p, In p ps -> is_IE (p_acc p) = true -> accrual_window_ok ac = true) -> mnp (expand_postings t ac ps).
 Proof.
-  induction ps as [|p ps IH]; intros H; cbn [expand_postings]; [intros m; discriminate|].
+  unfold expand_postings.
+  induction ps as [|p ps IH]; intros H; cbn [expand_postings_gen]; [intros m; discriminate|].
+  change (expand_posting_gen rebook_fixed t ac p) with (expand_posting t ac p).
   apply mbind_mnp; [apply expand_posting_np; apply H; left; reflexivity|]. intros l1 _.
   apply mbind_mnp; [apply IH; intros q Hq; apply H; right; exact Hq|]. intros l2 _ m. discriminate.
 Qed.
@@ -400,10 +417,11 @@ Qed.
 
 Lemma txn_create_np s : sdirective_ok (STxn s) = true -> mnp (txn_create s).
 Proof.
-  cbn [sdirective_ok]. intros Hok. unfold txn_create.
+  cbn [sdirective_ok]. intros Hok. unfold txn_create, txn_create_gen.
   apply mbind_mnp; [apply postings_create_mnp|]. intros ps Hps.
   destruct (st_accrual s) as [ac|]; [|intros m; discriminate].
-  unfold expand. apply mbind_mnp; [apply check_account_mnp|]. intros _ _.
+  unfold expand_gen. apply mbind_mnp; [apply check_account_mnp|]. intros _ _.
+  change (expand_postings_gen rebook_fixed) with expand_postings.
   apply expand_postings_np. cbn [t_postings]. intros p Hp HIE.
   destruct (accrual_window_ok ac); [reflexivity|]. rewrite orb_false_r in Hok.
   apply negb_true_iff in Hok. exfalso.
@@ -554,7 +572,7 @@ Proof.
   { destruct (bc_valuation cfg) as [v|]; [destruct (valid_commodity v); [apply cnp_ok|apply cnp_err]|apply cnp_ok]. }
   intros _. apply cbind_np; [apply load_safe_np|]. intros b.
   apply cbind_np; [apply cfg_partition_safe_np|]. intros part. cbv zeta.
-  apply cbind_np; [apply run_stage_np, check_proc_safe|]. intros r1.
+  apply cbind_np; [apply run_stage_np, check_proc_current_safe|]. intros r1.
   apply cbind_np.
   { destruct (bc_valuation cfg) as [v|]; [|apply cnp_ok].
     apply cbind_np; [apply compute_prices_stage_np|]. intros r2.
@@ -577,13 +595,13 @@ Qed.
 Theorem print_cmd_safe_np lenient ds : cnp (print_cmd_safe lenient ds).
 Proof.
   unfold print_cmd_safe. apply cbind_np; [apply load_safe_np|]. intros b.
-  apply cbind_np; [apply run_stage_np, check_proc_safe|]. intros r. apply cnp_ok.
+  apply cbind_np; [apply run_stage_np, check_proc_current_safe|]. intros r. apply cnp_ok.
 Qed.
 
 Lemma run_fs_np {A} fs root (k : list sdirective -> cresult A) : (forall ds, cnp (k ds)) -> cnp (run_fs fs root k).
 Proof.
   intros Hk. unfold run_fs. pose proof (load_terminates fs root) as Ht.
-  destruct (Loader.load (fuel_for fs) fs root) as [ds|e|]; [apply Hk|apply cnp_err|contradiction].
+  destruct (LoaderM.load (fuel_for fs) fs root) as [ds|e|]; [apply Hk|apply cnp_err|contradiction].
 Qed.
 
 (* ---------------------------------------------------------------- the repair changes nothing where the pinned code did not panic *)
@@ -738,7 +756,7 @@ Theorem invalid_directive_fails_all fs root p items d :
   (forall cfg t, run_fs fs root (balance_table_safe cfg) <> COk t).
 Proof.
   intros Hr Hlk Hin Hbad. unfold run_fs.
-  destruct (Loader.load (fuel_for fs) fs root) as [ds|e|] eqn:El.
+  destruct (LoaderM.load (fuel_for fs) fs root) as [ds|e|] eqn:El.
   2: { repeat split; intros; discriminate. }
   2: { repeat split; intros; discriminate. }
   pose proof (included_directive_loaded fs root p items d Hr Hlk Hin _ _ El) as Hd.
